@@ -232,6 +232,9 @@ func (e *Engine) rtCall(name string, args []Value, st *State, depth int, site ss
 			e.mergeOn = v != 0
 		case "maporder":
 			e.mapOrderPolicy = v
+		case "realquote":
+			// strconv.Quote is executed from the library's source instead of being an opaque string
+			e.realQuote = v != 0
 		default:
 			e.unsupported("verifrt.SetOpt(%q)", str(0))
 		}
